@@ -644,6 +644,34 @@ func checkMain(args []string) {
 		ev.Coverage.Explanation = cfg.Claim
 	}
 	ev.finish(*verif, start, violations, "")
+	// disk: the queries of discharged obligations are regenerated by the next run; keep the sampled ones (the evidence
+	// names them) and everything that was not discharged (replay records name those). GOVC_KEEP_QUERIES=1 keeps all.
+	if os.Getenv("GOVC_KEEP_QUERIES") == "" {
+		keep := map[string]bool{}
+		for _, smp := range ev.Coverage.Samples {
+			if f, ok := smp["smt_file"].(string); ok {
+				keep[f] = true
+			}
+		}
+		for _, r := range results {
+			for _, o := range r.Obligations {
+				if o.Status != "unsat" && o.File != "" {
+					keep[o.File] = true
+				}
+			}
+		}
+		if ents, err := os.ReadDir(workDir); err == nil {
+			for _, e := range ents {
+				f := filepath.Join(workDir, e.Name())
+				if keep[f] || keep[strings.TrimSuffix(f, ".cvc5.smt2")+".smt2"] || strings.Contains(e.Name(), "_retry") && violations > 0 {
+					continue
+				}
+				if strings.HasSuffix(e.Name(), ".smt2") {
+					os.Remove(f)
+				}
+			}
+		}
+	}
 	if *verbose || violations > 0 {
 		for _, n := range aggOrder {
 			a := aggs[n]
